@@ -436,10 +436,12 @@ void svt_av1_scan_tiles(EbDecHandle *dec_handle_ptr, TilesInfo *tiles_info, ObuH
 
         // Assign to ParseCtxt
         parse_tile_data[tile_num].data      = get_bitsteam_buf(bs);
-        parse_tile_data[tile_num].data_end  = bs->buf_max;
+        parse_tile_data[tile_num].data_end  = bs->buf_max - 8; // buf_max lies 8 bytes beyond the data
         parse_tile_data[tile_num].tile_size = tile_size;
 
-        dec_bits_init(bs, (get_bitsteam_buf(bs) + tile_size), obu_header->payload_size);
+        dec_bits_init(bs,
+                          (get_bitsteam_buf(bs) + tile_size),
+                          (tile_num == tg_end) ? 0 : obu_header->payload_size); // nothing follows the last tile
     }
 }
 
